@@ -42,7 +42,7 @@ def gen_run(rng, prop, index, tier):
             ops.append(op)
             alive.append(a)
         else:
-            ops.append({"op": "create", "a": a, "ids": None})
+            ops.append({"op": "create", "a": a, "ids": None, "fmt": 2 if cls == "data3d" and rng.random() < 0.35 else None})
             alive.append(a)
 
     create(0)
@@ -59,6 +59,10 @@ def gen_run(rng, prop, index, tier):
             if cls in world2.CHANNELLED:
                 q = rng.random()
                 ch = None if q < 0.5 else ("taken" if q < 0.62 else rng.choice((rng.randint(0, 12), rng.randint(0, 300))))
+                if cls == "fpdata" and isinstance(ch, int) and rng.random() < 0.3:
+                    ch = rng.choice((32767, 32768, 40000 + ch, 65535, 65534))  # this block's map is unsigned
+                elif cls in ("emg", "fpcal") and isinstance(ch, int) and rng.random() < 0.2:
+                    ch = rng.choice((32767, 32766, 32000 + ch))  # the top of a signed 16 bit map
             op = {"op": "add", "a": a, "id": ids(1)[0], "ch": ch, "k": rng.randint(0, 9)}
             q = rng.random()
             if q < 0.12:
@@ -70,7 +74,7 @@ def gen_run(rng, prop, index, tier):
                 op["explicit"] = True
             ops.append(op)
         elif r < 0.52:
-            ops.append({"op": "remove", "a": a, "k": rng.randint(0, 9), "by": rng.choice(("index", "object", "label"))})
+            ops.append({"op": "remove", "a": a, "k": rng.randint(0, 9), "by": rng.choice(("index", "object", "label", "negative"))})
         elif r < 0.64:
             ops.append({"op": "add_bad", "a": a, "id": ids(1)[0], "kind": rng.choice(BAD_KINDS),
                         "ch": rng.choice((None, None, rng.randint(0, 40)))})
@@ -83,8 +87,10 @@ def gen_run(rng, prop, index, tier):
             elif q < 0.55:
                 op.update(raise_after=rng.randint(0, k))
             else:
-                op["as"] = rng.choice(("list", "list", "iter", "gen", "tuple", "own"))
+                op["as"] = rng.choice(("list", "list", "iter", "gen", "tuple", "own", "self", "chain_self", "chain_own"))
                 op["keep"] = rng.sample(range(6), rng.randint(0, 4))
+            if q >= 0.55 and op["as"] == "list" or q < 0.35:
+                op["iadd"] = rng.random() < 0.3
             if cls == "fpcal":
                 chs = rng.sample(range(0, 40), k)
                 op["chs"] = chs
